@@ -41,6 +41,29 @@
 #include "htp_private.h"
 
 /**
+ * Invoked when handing urlencoded parameters over to the transaction fails
+ * after the first "transferred" of them have been handed over: the remaining
+ * names and values are released here, and then only the table that stored
+ * them, so that nothing is owned (and later freed) twice.
+ *
+ * @param[in] urlenp
+ * @param[in] transferred
+ */
+static void htp_ch_urlencoded_abandon_params(htp_urlenp_t *urlenp, size_t transferred) {
+    bstr *name = NULL;
+    bstr *value = NULL;
+
+    for (size_t i = transferred, n = htp_table_size(urlenp->params); i < n; i++) {
+        value = htp_table_get_index(urlenp->params, i, &name);
+        bstr_free(name);
+        bstr_free(value);
+    }
+
+    htp_table_destroy_ex(urlenp->params);
+    urlenp->params = NULL;
+}
+
+/**
  * This callback function feeds request body data to a Urlencoded parser
  * and, later, feeds the parsed parameters to the correct structures.
  *
@@ -68,7 +91,10 @@ htp_status_t htp_ch_urlencoded_callback_request_body_data(htp_tx_data_t *d) {
             value = htp_table_get_index(tx->request_urlenp_body->params, i, &name);
 
             htp_param_t *param = calloc(1, sizeof (htp_param_t));
-            if (param == NULL) return HTP_ERROR;
+            if (param == NULL) {
+                htp_ch_urlencoded_abandon_params(tx->request_urlenp_body, i);
+                return HTP_ERROR;
+            }
 
             param->name = name;
             param->value = value;
@@ -78,6 +104,7 @@ htp_status_t htp_ch_urlencoded_callback_request_body_data(htp_tx_data_t *d) {
 
             if (htp_tx_req_add_param(tx, param) != HTP_OK) {
                 free(param);
+                htp_ch_urlencoded_abandon_params(tx->request_urlenp_body, i);
                 return HTP_ERROR;
             }
         }
@@ -158,7 +185,10 @@ htp_status_t htp_ch_urlencoded_callback_request_line(htp_tx_t *tx) {
         value = htp_table_get_index(tx->request_urlenp_query->params, i, &name);
 
         htp_param_t *param = calloc(1, sizeof (htp_param_t));
-        if (param == NULL) return HTP_ERROR;
+        if (param == NULL) {
+            htp_ch_urlencoded_abandon_params(tx->request_urlenp_query, i);
+            return HTP_ERROR;
+        }
         
         param->name = name;
         param->value = value;
@@ -168,6 +198,7 @@ htp_status_t htp_ch_urlencoded_callback_request_line(htp_tx_t *tx) {
 
         if (htp_tx_req_add_param(tx, param) != HTP_OK) {
             free(param);
+            htp_ch_urlencoded_abandon_params(tx->request_urlenp_query, i);
             return HTP_ERROR;
         }
     }
